@@ -49,6 +49,10 @@ class Ctx:
                 "call_sites": sum(1 for fn in f.fn_list for b in fn.blocks if b["t"]["k"] == "call"),
                 "fact_file": os.path.basename(path),
             }
+            if getattr(f, "absorbed", None) or getattr(f, "not_absorbed", None):
+                # functions that are not in tables/known_functions.json (engine/py/inline.py)
+                self.analysed[config]["new_private_helpers_analysed_inside_their_callers"] = f.absorbed
+                self.analysed[config]["new_private_functions_left_alone"] = f.not_absorbed
         return self._facts[config]
 
     @property
